@@ -182,6 +182,32 @@ func (pf *ParserFacts) judgeSlot(s SlotStore, req string) []slotVerdict {
 			return out
 		}
 		out = append(out, pf.scalar(s, "Equals", false))
+		// an operand carried around a loop (a OP b OP c: the node built by one cycle is the left
+		// operand of the next) must be tested with ITS type in every cycle: a type taken before
+		// the loop describes the first operand only
+		if ph, isPhi := s.Val.(*ssa.Phi); isPhi {
+			if hdr := naturalLoops(s.Fn)[s.Instr.Block()]; hdr != nil && ph.Block() == hdr {
+				if ok, why := pf.guardedBy(s, ph, atomEquals); !ok {
+					out = append(out, slotVerdict{"Equals(loop-carried)", false, false, "the operand is carried over from the previous cycle of the chain, but the type compared with the other operand is not taken from it in this cycle (" + why + "): from the second operator on, operands of different types are accepted (1 < 2 == 3)"})
+				} else {
+					out = append(out, slotVerdict{"Equals(loop-carried)", true, false, "the carried operand's own type is compared in every cycle"})
+				}
+				if ok, why := pf.guardedBy(s, ph, atomOp); !ok {
+					// the operator table may be consulted for the sibling operand instead (types tested equal)
+					sibOK := false
+					for _, sib := range pf.Slots {
+						if sib.Instr.Block() == s.Instr.Block() && sib.Fn == s.Fn && sib.Node == s.Node && sib.Field != s.Field && sameLiteral(sib, s) {
+							if ok2, _ := pf.guardedBy(sib, sib.Val, atomOp); ok2 {
+								sibOK = true
+							}
+						}
+					}
+					if !sibOK {
+						out = append(out, slotVerdict{"OpAllowed(loop-carried)", false, false, "the operator table is consulted for a type taken before the loop, not for the operand carried into this cycle (" + why + ")"})
+					}
+				}
+			}
+		}
 		v := pf.scalar(s, "Op", false)
 		v.what = "OpAllowed"
 		if !v.ok {
